@@ -166,6 +166,7 @@ class State:
         self.live = []  # reference model: (addr, port, how) of the reverse forwards that are active right now
         self.gone = []  # forwards that were cancelled
         self.tcp_phase = "never"
+        self.x11_phase = "never"
         self.next_alloc = 40000
         self.handled = []  # channels given to custom handlers
 
@@ -203,6 +204,18 @@ def judge_batch(ctx, sess, st, since_n, desc, sent):
                 ctx.count("channel_opens_read")
                 if kind == "forwarded-tcpip":
                     ctx.count("tcp_open_read_phase_" + info.get("tcp_phase", "never"))
+                if kind == "x11":
+                    ctx.count("x11_open_read_phase_" + info.get("x11_phase", "never"))
+                if info.get("tcp_dontcare"):
+                    # open read while cancel_port_forward() had not returned yet: either answer is acceptable
+                    conf = [o for o in outs if o["type"] == 91]
+                    if conf:
+                        st.legit_remote_ids.add(sender)
+                        cr = Rd(conf[0]["payload"], 1)
+                        cr.u32()
+                        st.server_chans.append(cr.u32())
+                        ctx.count("opens_accepted_while_cancel_pending")
+                    continue
                 enabled = bool(feat and info["enabled"].get(feat))
                 if enabled:
                     ctx.count("channel_opens_read_while_enabled")
@@ -222,7 +235,11 @@ def judge_batch(ctx, sess, st, since_n, desc, sent):
                         if not feat:
                             why = "never enabled"
                         elif feat == "tcp" and info.get("cancelled"):
-                            why = "after cancel_port_forward"
+                            why = {"after_cancel_refused_by_server": "after a cancel the server answered with REQUEST_FAILURE",
+                                   "after_cancel_delayed_reply": "after cancel_port_forward returned late"}.get(
+                                       info.get("tcp_phase"), "after cancel_port_forward")
+                        elif feat == "x11" and info.get("x11_phase") == "refused_after_granted_requests":
+                            why = "after a refused request that followed granted requests on the channel"
                         elif info.get("refused", {}).get(feat) and not info.get("ever", {}).get(feat):
                             why = "after a refused request"
                         elif not info.get("ever", {}).get(feat):
@@ -261,7 +278,56 @@ def run_session(ctx, rng, desc):
                 ctx.count("session_ended_early")
                 break
             kind = op[0]
-            if kind in ("open_session", "enable_x11", "enable_agent", "enable_pf", "refused_pf", "cancel_pf", "close_chan"):
+            if kind in ("cancel_pf_refused", "cancel_pf_delayed"):
+                # the hostile server answers the cancel by hand: with REQUEST_FAILURE, or late with opens in between
+                if len(st.live) != 1:
+                    continue
+                sess.hold()
+                istart = sess.att.inbox_mark()
+                fw = st.live.pop()
+                st.gone.append(fw)
+                st.enabled["tcp"] = False  # the application asked for the cancellation
+                cancelled = True
+                box = {}
+
+                def _cancel(_fw=fw):
+                    try:
+                        v.cancel_port_forward(_fw[0], _fw[1])
+                        box["r"] = "ok"
+                    except Exception as e:  # noqa
+                        box["r"] = e
+
+                th = threading.Thread(target=_cancel, daemon=True)
+                th.start()
+                req = sess.att.wait_inbox(lambda e: e["type"] == 80 and b"cancel-tcpip-forward" in e["payload"], 60, istart)
+                if req is None:
+                    ctx.inconclusive("hostile server never saw the cancel-tcpip-forward request")
+                    return
+                if kind == "cancel_pf_delayed":
+                    # opens that arrive before cancel_port_forward() has returned are sent but not judged
+                    since_n = sess.att.mark()
+                    sent = {}
+                    for _ in range(rng.randint(1, 3)):
+                        sender = st.next_sender
+                        st.next_sender += 1
+                        seq, fst = sess.step(90, open_body(rng, "forwarded-tcpip", sender, fw[1]))
+                        if seq is not None:
+                            sent[seq] = dict(what="open", kind="forwarded-tcpip", sender=sender, tcp_dontcare=True,
+                                             enabled=dict(st.enabled), tcp_phase="cancel_pending")
+                    judge_batch(ctx, sess, st, since_n, desc, sent)
+                    ctx.count("opens_sent_while_cancel_pending_not_judged", len(sent))
+                sess.raw(82 if kind == "cancel_pf_refused" else 81)
+                th.join(60)
+                if th.is_alive():
+                    ctx.inconclusive("cancel_port_forward did not return after the server's answer")
+                    return
+                ctx.count("api_cancel_port_forward")
+                ctx.count("api_" + kind)
+                st.tcp_phase = "after_cancel_refused_by_server" if kind == "cancel_pf_refused" else "after_cancel_delayed_reply"
+                sess.fence()
+                continue
+            if kind in ("open_session", "enable_x11", "enable_agent", "enable_pf", "refused_pf", "cancel_pf", "close_chan",
+                        "x11_history"):
                 if not sess.release():
                     break
                 if kind == "open_session":
@@ -274,10 +340,58 @@ def run_session(ctx, rng, desc):
                         continue
                     ch = rng.choice(st.client_chans)
                     h = (lambda c, a: st.handled.append(c)) if op[1] else None
+                    sess.pol["check_channel_x11_request"] = True
                     r, val = api(lambda: ch.request_x11(handler=h))
                     if r == "ok":
                         st.enabled["x11"] = ever["x11"] = True
+                        st.x11_phase = "granted"
                         ctx.count("api_request_x11")
+                elif kind == "x11_history":
+                    # a fresh channel, 0..4 want-reply requests the server GRANTS, then x11-req granted or refused.
+                    # What the server answered (harness-controlled) decides whether X11 is enabled, not whether
+                    # request_x11() happened to return.
+                    r, ch = api(lambda: v.open_session(timeout=50))
+                    if r != "ok":
+                        continue
+                    ctx.count("api_open_session")
+                    hist = ["get_pty", "env", rng.choice(["shell", "exec"]), "env", "get_pty"]
+                    rng.shuffle(hist)
+                    done_h = 0
+                    for hname in hist[:op[2]]:
+                        call = dict(get_pty=lambda: ch.get_pty(), env=lambda: ch.set_environment_variable("A", "b"),
+                                    shell=lambda: ch.invoke_shell(), exec=lambda: ch.exec_command("id"))[hname]
+                        r, val = api(call)
+                        if r != "ok":
+                            break
+                        done_h += 1
+                        ctx.count("api_granted_request_before_x11")
+                    if done_h != op[2]:
+                        ctx.count("x11_history_aborted")
+                        continue
+                    grant = op[3] == "grant"
+                    sess.pol["check_channel_x11_request"] = grant
+                    h = (lambda c, a: st.handled.append(c)) if op[1] else None
+                    mk = sess.att.mark()
+                    r, val = api(lambda: ch.request_x11(handler=h))
+                    sess.pol["check_channel_x11_request"] = True
+                    if grant:
+                        if r == "ok":
+                            st.enabled["x11"] = ever["x11"] = True
+                            st.x11_phase = "granted"
+                            st.client_chans.append(ch)
+                            ctx.count("api_request_x11")
+                    else:
+                        refused["x11"] = True
+                        if not st.enabled["x11"]:
+                            st.x11_phase = "refused_on_fresh_channel" if done_h == 0 else "refused_after_granted_requests"
+                        ctx.count("api_request_x11_refused")
+                        ctx.count("api_request_x11_refused_after_%d_granted_requests" % done_h)
+                        if r == "ok":
+                            ctx.count("request_x11_returned_normally_although_server_refused")
+                        # let the refusal reach the client before going on
+                        end = time.monotonic() + 30
+                        while time.monotonic() < end and not sess.vmsgs("in", types=(100,), since=mk):
+                            time.sleep(0.003)
                 elif kind == "enable_agent":
                     if not st.client_chans:
                         continue
@@ -360,7 +474,7 @@ def run_session(ctx, rng, desc):
             since_n = sess.att.mark()
             sent = {}
             snap = dict(enabled=dict(st.enabled), ever=dict(ever), refused=dict(refused), cancelled=cancelled,
-                        live=[(a, p) for (a, p, _) in st.live], tcp_phase=st.tcp_phase)
+                        live=[(a, p) for (a, p, _) in st.live], tcp_phase=st.tcp_phase, x11_phase=st.x11_phase)
             msgs = []
             if kind == "globals":
                 for gk in rng.sample(GLOBAL_KINDS, rng.randint(2, 4)) + [rand_name(rng)]:
@@ -431,7 +545,7 @@ def run_session(ctx, rng, desc):
 
 def draw_ops(rng):
     ops = [("open_session",)]
-    n = rng.randint(4, 9)
+    n = rng.randint(3, 6)
     pool = ["globals", "opens", "opens", "chanreqs", "chanreqs", "enable_x11", "enable_agent", "enable_pf", "refused_pf",
             "cancel_pf", "open_session", "close_chan"]
     if rng.random() < 0.25:
@@ -446,9 +560,17 @@ def draw_ops(rng):
             if k == "enable_pf" and rng.random() < 0.6:
                 ops.append(("cancel_pf", False))
                 ops.append(("opens", "focus"))
+    hf = lambda: rng.random() < 0.5
+    F = ("opens", "focus")
+    if rng.random() < 0.6:
+        # X11 refused (fresh channel or after 1..4 granted requests) before X11 was ever granted in this session
+        ops = [("x11_history", hf(), rng.choice([0, 1, 1, 2, 3, 4]), "refuse"), F] + ops
+    if rng.random() < 0.5:
+        ops = ops + [("x11_history", hf(), rng.randint(0, 4), rng.choice(["grant", "refuse"])), F]
+    if rng.random() < 0.6:
+        ops = ops + [("cancel_pf", False, "all"), ("enable_pf", hf(), rng.choice(["explicit", "zero"])), F,
+                     (rng.choice(["cancel_pf_refused", "cancel_pf_delayed"]), False), F]
     if rng.random() < 0.8:
-        hf = lambda: rng.random() < 0.5
-        F = ("opens", "focus")
         scen = rng.choice([
             [("enable_pf", hf(), "zero"), F, ("cancel_pf", False, "one"), F],
             [("enable_pf", hf(), rng.choice(["explicit", "zero"])), ("enable_pf", hf(), "zero"), F,
@@ -466,7 +588,7 @@ def draw_ops(rng):
 
 def run(ctx):
     rng = ctx.rng
-    n = ctx.pick(64, 1600)
+    n = ctx.pick(56, 1400)
     deadline = ctx.deadline(150, 1200)
     shown = 0
     for i in range(n):
@@ -504,3 +626,13 @@ def run(ctx):
     ctx.require("tcp_open_read_phase_live_after_partial_cancel", 5)
     ctx.require("tcp_open_read_phase_live_after_rerequest", 5)
     ctx.require("tcp_open_accepted_phase_live", 10)
+    ctx.require("api_cancel_pf_refused", 8)
+    ctx.require("api_cancel_pf_delayed", 8)
+    ctx.require("tcp_open_read_phase_after_cancel_refused_by_server", 8)
+    ctx.require("tcp_open_read_phase_after_cancel_delayed_reply", 8)
+    ctx.require("opens_sent_while_cancel_pending_not_judged", 8)
+    ctx.require("api_request_x11_refused", 20)
+    ctx.require("api_granted_request_before_x11", 30)
+    ctx.require("x11_open_read_phase_refused_on_fresh_channel", 4)
+    ctx.require("x11_open_read_phase_refused_after_granted_requests", 15)
+    ctx.require("x11_open_read_phase_granted", 15)
